@@ -195,6 +195,7 @@ MSG_LINE = re.compile(r'\s*(?P<time>-?\d+\.\d{4}) (?P<conn>\w*): (?P<body>.*)', 
 NOTICE = re.compile(r'(?P<what>New|Closed) (?P<role>client|server|unknown type) connection (?P<name>\w+)')
 SEP = re.compile(r'    ───┤ (?P<gap>-?\d+\.\d{4})s ├───')
 JUNK = re.compile(r'       \|  (?P<text>.*)', re.S)
+CONNLINE = re.compile(r'(?P<cur> => |    )(?P<name>\w+) \((?P<inner>.*)\): (?P<state>open|closed), (?P<n>\d+) messages', re.S)
 COUNTS = re.compile(r"\((?P<a>\d+) matched, (?P<b>\d+) didn't(?:, (?P<c>\d+) not checked)?\)")
 
 
@@ -244,8 +245,25 @@ def lex_out(text):
         return {'k': 'info', 'what': 'break', 'text': s}
     if s == 'Showing messages from all connections' or s.startswith('Switched to connection '):
         return {'k': 'info', 'what': 'sel', 'text': s}
-    if re.match(r'( => |    )\w+ \(', s):
-        return {'k': 'info', 'what': 'conns', 'text': s}
+    m = CONNLINE.fullmatch(s)
+    if m:
+        inner = m.group('inner')
+        closedmark = inner.endswith(', closed')
+        if closedmark:
+            inner = inner[:-len(', closed')]
+        role = 'unknown'
+        title = ''
+        for word, r_ in (('client', 'client'), ('server', 'server'), ('unknown type', 'unknown')):
+            if inner == word or inner.startswith(word + ' '):
+                role = r_
+                title = inner[len(word):]
+                if role == 'server' and title.startswith(' to '):
+                    title = title[4:]
+                elif title.startswith(' '):
+                    title = title[1:]
+                break
+        return {'k': 'connline', 'cur': m.group('cur') == ' => ', 'name': m.group('name'), 'role': role, 'title': title,
+                'closedmark': closedmark, 'open': m.group('state') == 'open', 'n': int(m.group('n'))}
     if s.startswith('Traceback (most recent call last)'):
         return {'k': 'crash', 'text': s}
     return {'k': 'text', 'text': s}
